@@ -80,7 +80,8 @@ def _variants(spec):
             v.append(('players',))
         return v
     if c == 'ident':
-        return [('ident', a, b) for a, b in _ident_pairs(shape)]
+        # 'alias': the very same list object is entered as two teams (a caller re-using one team list)
+        return [('ident', a, b) for a, b in _ident_pairs(shape)] + [('alias', a, b) for a, b in _ident_pairs(shape)[:2]]
     return [('mono', i, j) for i, k in enumerate(shape) for j in range(k)]
 
 
@@ -103,6 +104,11 @@ def _run(key, shape, variant, mk):
         _, a_, b_ = variant
         ov = {(b_, j): (mk(H.pname('mu', a_, j)), mk(H.pname('sg', a_, j))) for j in range(shape[b_])}
         return PR.call(m, 'predict_win', PR.build_teams(m, shape, mk, overrides=ov)), None
+    if kind == 'alias':
+        _, a_, b_ = variant
+        teams = PR.build_teams(m, shape, mk)
+        teams[b_] = teams[a_]
+        return PR.call(m, 'predict_win', teams), None
     _, i, j = variant
     a = PR.call(m, 'predict_win', PR.build_teams(m, shape, mk))
     ov = {(i, j): (mk(H.pname('mu', i, j)) + mk('d'), mk(H.pname('sg', i, j)))}
@@ -134,8 +140,14 @@ def _negations(variant, shape, a, b):
     if kind == 'players':
         diffs = [x for x in (PR.terms_equal(x, y) for x, y in zip(a, b)) if x is not None]
         return [('reordering players leaves the result unchanged', z3.Or(*diffs) if diffs else None)]
-    if kind == 'ident':
+    if kind in ('ident', 'alias'):
         _, i, j = variant
+        if len(a) != n:
+            return [('one value per team', z3.BoolVal(True))]
+        if kind == 'alias':
+            tot = sum(L(x) for x in a)
+            obs.append(('one list object entered as two teams: each value in [0,1]', z3.Or(*[z3.Or(L(x) < 0, L(x) > 1) for x in a])))
+            obs.append(('one list object entered as two teams: values sum to 1', None if core.is_zero(core.som(tot - 1)) else tot != 1))
         obs.append((f'identical teams {i},{j} get identical values', PR.terms_equal(a[i], a[j])))
         if n == 2:
             obs.append(('two identical teams get exactly 1/2', z3.Or(2 * L(a[0]) != 1, 2 * L(a[1]) != 1)))
@@ -213,8 +225,10 @@ def replay(cand):
     elif kind == 'players':
         if any(abs(x - y) > tol for x, y in zip(a, b)):
             probs.append(f'player order changes the result: {a} vs {b}')
-    elif kind == 'ident':
+    elif kind in ('ident', 'alias'):
         _, i, j = variant
+        if kind == 'alias' and (len(a) != n or any(x < 0 or x > 1 for x in a) or abs(sum(a) - 1) > tol):
+            probs.append(f'the same list entered as teams {i} and {j}: {a} (sum {sum(a)!r})')
         if abs(a[i] - a[j]) > tol:
             probs.append(f'identical teams {i},{j}: {a[i]!r} vs {a[j]!r}')
         if n == 2 and (a[0] != 0.5 or a[1] != 0.5):
